@@ -98,6 +98,21 @@ def run(ctx, limit):
                 nxt[u] = v
                 q.append(u)
 
+    # ---- graph law (EF accepted): every state reached without an error can still be completed to an accepted document without
+    #      any handler refusing; a slot of after[] / next[][] that init() forgot makes an element impossible to close
+    okset = set(k for k, s_ in node.items() if s_["out"] == "accepted")
+    q2 = sorted(okset)
+    for v in q2:
+        for u in sorted(pred.get(v, [])):
+            if u not in okset and not node[v]["ev"].get("refuse") and not node[v]["err"]:
+                okset.add(u)
+                q2.append(u)
+    dead = sorted(set(node[k]["st"] for k in par if not node[k]["err"] and node[k]["out"] == "run" and k not in okset))
+    cov["g3parser_states_completable"] = len([k for k in par if k in okset])
+    for st_ in dead:
+        ctx.violation("g3parser|dead-state|%s" % st_, "state %s of DataParser is reachable without error, but no sequence of tags leads from it to an accepted document "
+                      "(an element that can be opened and never closed: a missing after[] or next[][] slot)" % st_)
+
     def path_to(k):
         p = []
         while k is not None:
